@@ -683,6 +683,11 @@ def TokenCache_Delete (tc : Go.CacheS) (token : Go.Str) : Go.CacheS :=
   let tc := (Cache_Delete tc token)
   tc
 
+/-- TokenCache.Cleanup (helpers.go) -/
+def TokenCache_Cleanup (now : Go.Time) (tc : Go.CacheS) : Go.CacheS :=
+  let tc := (Cache_Cleanup now tc)
+  tc
+
 /-- discoverProviderMetadata (main.go) -/
 def discoverProviderMetadata (fuel : Nat) {σ : Type} (ops : Go.DOps σ) (providerURL : Go.Str) (httpClient : Go.HTTPClient) (l : Go.Logger) (w : σ) : Option (((Option Go.Meta) × Go.Err) × σ) :=
   let wellKnownURL := ((Go.trimSuffix providerURL ['/']) ++ ['/','.','w','e','l','l','-','k','n','o','w','n','/','o','p','e','n','i','d','-','c','o','n','f','i','g','u','r','a','t','i','o','n'])
